@@ -131,6 +131,7 @@ type Machine struct {
 	timers    []*chanV
 	ptrIDs    map[*value]int
 	inInit    int
+	syncMaps  map[*value]*mapV
 	pools     map[*value][]value
 	overrides map[string]value
 	racyScope string
@@ -692,6 +693,7 @@ func (m *Machine) resetPath() {
 	m.timers = nil
 	m.ptrIDs = map[*value]int{}
 	m.inInit = 0
+	m.syncMaps = map[*value]*mapV{}
 	m.pools = map[*value][]value{}
 	m.overrides = map[string]value{}
 	m.racyScope = ""
